@@ -3,6 +3,7 @@
 package c12
 
 import (
+	"bytes"
 	"context"
 	"errors"
 	"fmt"
@@ -185,64 +186,69 @@ func replayTimeout(a *hk.Args) error {
 		go func(i int) {
 			defer wg.Done()
 			defer func() { <-sem }()
-			b := &bs[i]
-			res := hk.Result{ID: i, Status: "ok", Variant: "timeout-runner/" + b.Listen, Nontriv: true}
-			tf, af, ts := index(b.Steps, "TimerFires"), index(b.Steps, "ActionSends"), index(b.Steps, "ActionTakesStop")
-			if ts >= 0 {
-				af = -1
-			}
-			timeout := 2 * step
-			var finishAfter, listenFrom time.Duration
-			switch b.Listen {
-			case "always":
-				listenFrom = 0
-			case "late":
-				listenFrom = 3 * step
-			default:
-				listenFrom = -1
-			}
-			switch {
-			case af >= 0 && (tf < 0 || af < tf): // the action finishes on its own before the deadline
-				finishAfter = step
-				if b.Listen == "late" && index(b.Steps, "ActionProgress") >= 0 && index(b.Steps, "ActionProgress") < af {
-					listenFrom = step / 2
+			attempt := func() hk.Result {
+				b := &bs[i]
+				res := hk.Result{ID: i, Status: "ok", Variant: "timeout-runner/" + b.Listen, Nontriv: true}
+				tf, af, ts := index(b.Steps, "TimerFires"), index(b.Steps, "ActionSends"), index(b.Steps, "ActionTakesStop")
+				if ts >= 0 {
+					af = -1
 				}
-			case ts >= 0: // deadline first, then the action takes the stop signal
-				finishAfter = 40 * step
-			default: // deadline first, the action finishes later on its own without taking the signal
-				finishAfter = 4 * step
-				if b.Listen != "never" {
-					listenFrom = 40 * step // it never gets to listen before finishing
+				timeout := 2 * step
+				var finishAfter, listenFrom time.Duration
+				switch b.Listen {
+				case "always":
+					listenFrom = 0
+				case "late":
+					listenFrom = 3 * step
+				default:
+					listenFrom = -1
 				}
+				switch {
+				case af >= 0 && (tf < 0 || af < tf): // the action finishes on its own before the deadline
+					finishAfter = step
+					if b.Listen == "late" && index(b.Steps, "ActionProgress") >= 0 && index(b.Steps, "ActionProgress") < af {
+						listenFrom = step / 2
+					}
+				case ts >= 0: // deadline first, then the action takes the stop signal
+					finishAfter = 40 * step
+				default: // deadline first, the action finishes later on its own without taking the signal
+					finishAfter = 4 * step
+					if b.Listen != "never" {
+						listenFrom = 40 * step // it never gets to listen before finishing
+					}
+				}
+				o := runTimeout(timeout, finishAfter, listenFrom, 0)
+				fail := func(sig, d string) {
+					res.Status, res.Sig, res.Detail, res.Scenario = "violation", sig, d, b
+				}
+				// was the scripted order (action end vs deadline) really realised? On a loaded machine the action may start
+				// later than the spacing of the script allows for: such a run says nothing about the behaviour it replays
+				finishFirst := af >= 0 && (tf < 0 || af < tf)
+				marginUs := int64(step / 3 / time.Microsecond)
+				if o.Returned && o.LatencyUs > marginUs {
+					// timers and goroutines were served later than the spacing of the script tolerates (the runner's own deadline timer too)
+					res.Status, res.Detail = "skip", fmt.Sprintf("scripted instants not realisable under load (scheduling latency %dus)", o.LatencyUs)
+					return res
+				}
+				if o.Returned && o.ActionEnded && ((finishFirst && o.EndOffsetUs > -marginUs) || (!finishFirst && !o.SawStop && o.EndOffsetUs < marginUs)) {
+					res.Status, res.Detail = "skip", fmt.Sprintf("scripted order not realised under load (action end offset %dus)", o.EndOffsetUs)
+					return res
+				}
+				switch {
+				case !o.Returned:
+					fail("runner-never-returns", fmt.Sprintf("RunActionWithTimeout(%v) did not return; action listen=%s finishes after %v, listens from %v; model steps %v", timeout, b.Listen, finishAfter, listenFrom, b.Steps))
+				case o.Ret != b.Ret:
+					fail("runner-wrong-result", fmt.Sprintf("returned %q, model %q (listen=%s, action end offset %dus)", o.Ret, b.Ret, b.Listen, o.EndOffsetUs))
+				case !o.ActionEnded:
+					fail("runner-returned-before-action-ended", "the runner returned while the action goroutine was still running")
+				case ts >= 0 && !o.SawStop:
+					fail("stop-signal-not-delivered", "deadline passed but the listening action never received the stop signal")
+				}
+				return res
 			}
-			o := runTimeout(timeout, finishAfter, listenFrom, 0)
-			fail := func(sig, d string) {
-				res.Status, res.Sig, res.Detail, res.Scenario = "violation", sig, d, b
-			}
-			// was the scripted order (action end vs deadline) really realised? On a loaded machine the action may start
-			// later than the spacing of the script allows for: such a run says nothing about the behaviour it replays
-			finishFirst := af >= 0 && (tf < 0 || af < tf)
-			marginUs := int64(step / 3 / time.Microsecond)
-			if o.Returned && o.LatencyUs > marginUs {
-				// timers and goroutines were served later than the spacing of the script tolerates (the runner's own deadline timer too)
-				res.Status, res.Detail = "skip", fmt.Sprintf("scripted instants not realisable under load (scheduling latency %dus)", o.LatencyUs)
-				w.Write(res)
-				return
-			}
-			if o.Returned && o.ActionEnded && ((finishFirst && o.EndOffsetUs > -marginUs) || (!finishFirst && !o.SawStop && o.EndOffsetUs < marginUs)) {
-				res.Status, res.Detail = "skip", fmt.Sprintf("scripted order not realised under load (action end offset %dus)", o.EndOffsetUs)
-				w.Write(res)
-				return
-			}
-			switch {
-			case !o.Returned:
-				fail("runner-never-returns", fmt.Sprintf("RunActionWithTimeout(%v) did not return; action listen=%s finishes after %v, listens from %v; model steps %v", timeout, b.Listen, finishAfter, listenFrom, b.Steps))
-			case o.Ret != b.Ret:
-				fail("runner-wrong-result", fmt.Sprintf("returned %q, model %q (listen=%s, action end offset %dus)", o.Ret, b.Ret, b.Listen, o.EndOffsetUs))
-			case !o.ActionEnded:
-				fail("runner-returned-before-action-ended", "the runner returned while the action goroutine was still running")
-			case ts >= 0 && !o.SawStop:
-				fail("stop-signal-not-delivered", "deadline passed but the listening action never received the stop signal")
+			res := attempt()
+			for try := 0; try < 2 && res.Status == "violation" && res.Sig == "runner-wrong-result"; try++ {
+				res = attempt() // confirmed before it is reported (see replayCtx)
 			}
 			w.Write(res)
 		}(i)
@@ -304,9 +310,8 @@ func sweepTimeout(a *hk.Args) error {
 						ev.Order = "timer-first" // the signal is only sent after the deadline
 					case o.EndOffsetUs < -marginUs:
 						ev.Order = "finish-first"
-					case o.EndOffsetUs > marginUs:
-						ev.Order = "timer-first"
 					default:
+						// the action ending after the deadline says nothing about when the runner's timer was served: no order is claimed
 						ev.Order = "either"
 					}
 					mu.Lock()
@@ -331,7 +336,7 @@ func sweepTimeout(a *hk.Args) error {
 			}
 			marginUs := baseMarginUs + 4*o.LatencyUs
 			switch {
-			case o.SawStop || o.EndOffsetUs > marginUs:
+			case o.SawStop:
 				ev.Order = "timer-first"
 			case o.EndOffsetUs < -marginUs:
 				ev.Order = "finish-first"
@@ -379,7 +384,13 @@ func replayCtx(a *hk.Args) error {
 		go func(i int) {
 			defer wg.Done()
 			defer func() { <-sem }()
-			w.Write(runCtx(i, &bs[i]))
+			// a result that differs from the model's is confirmed before it is reported: a single stalled thread (the runner's own
+			// deadline timer served tens of milliseconds late) is not a property of the library and does not repeat; a defect does
+			res := runCtx(i, &bs[i])
+			for try := 0; try < 2 && res.Status == "violation" && res.Sig == "runner-wrong-result"; try++ {
+				res = runCtx(i, &bs[i])
+			}
+			w.Write(res)
 		}(i)
 	}
 	wg.Wait()
@@ -663,6 +674,19 @@ func runParallelise(n int, fails map[int]bool, rng *rand.Rand, keep bool) parObs
 	case <-fin:
 	case <-time.After(watchdog):
 		o.Leaked = true
+	}
+	if !o.Leaked {
+		// an invocation that has finished may still be stuck handing its result over: goroutines of Parallelise left behind
+		for t := time.Now(); time.Since(t) < 500*time.Millisecond; time.Sleep(10 * time.Millisecond) {
+			buf := make([]byte, 8<<20)
+			buf = buf[:runtime.Stack(buf, true)]
+			if !bytes.Contains(buf, []byte("parallelisation.Parallelise.func")) {
+				break
+			}
+			if time.Since(t) > 450*time.Millisecond {
+				o.Leaked = true
+			}
+		}
 	}
 	mu.Lock()
 	o.Invoked = append([]int{}, o.Invoked...)
